@@ -949,6 +949,7 @@ class Env:
         self.defs = {}
         self.assigns = {}
         self.imported = set()
+        self.std = {}        # names bound by imports of modelled stdlib
         tree = interp.repo.tree(rel)
         for st in tree.body:
             self._collect(st)
@@ -964,9 +965,16 @@ class Env:
         elif isinstance(st, ast.AnnAssign) and st.value is not None \
                 and isinstance(st.target, ast.Name):
             self.assigns[st.target.id] = st.value
-        elif isinstance(st, (ast.Import, ast.ImportFrom)):
+        elif isinstance(st, ast.Import):
             for a in st.names:
                 self.imported.add((a.asname or a.name).split(".")[0])
+                if a.name in STDLIB_MODELS:
+                    self.std[a.asname or a.name] = (a.name, None)
+        elif isinstance(st, ast.ImportFrom):
+            for a in st.names:
+                self.imported.add((a.asname or a.name).split(".")[0])
+                if st.level == 0 and st.module in STDLIB_MODELS:
+                    self.std[a.asname or a.name] = (st.module, a.name)
         elif isinstance(st, (ast.If, ast.Try)):
             for s in st.body:
                 self._collect(s)
@@ -988,6 +996,16 @@ class Env:
             v = self.interp.eval(self.assigns[name], Frame(self, {}))
             self.cache[name] = v
             return v
+        if name in self.std:
+            mod, member = self.std[name]
+            ns = STDLIB_MODELS[mod]
+            if member is None:
+                return ns
+            try:
+                return getattr(ns, member)
+            except (AttributeError, AnalysisError):
+                raise AnalysisError(f"{self.rel}: `{mod}.{member}` is not "
+                                    f"modelled by the analyser")
         if name in BUILTINS:
             return BUILTINS[name]
         raise AnalysisError(
@@ -1242,6 +1260,108 @@ def store_attr(interp, obj, name, value, node):
         setattr(obj, name, value)
     except AttributeError as e:
         raise ModelFault("AttributeError", str(e), node)
+
+
+# ----------------------------------------------------------------------
+# harmless standard-library models (bound when the analysed module imports
+# them and the rule does not supply its own)
+
+def _identity_decorator(*a, **k):
+    """lru_cache / cache / wraps(...): decorators without an effect on
+    the value computed (memoisation is invisible on immutable models)"""
+    if len(a) == 1 and callable(a[0]) and not k:
+        return a[0]
+    return lambda f: f
+
+
+def _limited_count(start=0, step=1):
+    def gen():
+        v = start
+        for _ in range(MAX_LOOP + 1):
+            yield v
+            v += step
+        raise AnalysisError("itertools.count(): more than "
+                            f"{MAX_LOOP} elements drawn on a finite model")
+    return gen()
+
+
+def _limited_cycle(it):
+    items = list(it)
+
+    def gen():
+        for i in range(MAX_LOOP + 1):
+            if not items:
+                return
+            yield items[i % len(items)]
+        raise AnalysisError("itertools.cycle(): loop limit")
+    return gen()
+
+
+def _attrgetter(*names):
+    def get(o):
+        vals = []
+        for n in names:
+            v = o
+            for part in n.split("."):
+                v = lookup_attr(None, v, part, None)
+            vals.append(v)
+        return vals[0] if len(vals) == 1 else tuple(vals)
+    return get
+
+
+def _itemgetter(*keys):
+    def get(o):
+        def one(k):
+            if isinstance(o, AstObject):
+                return lookup_attr(None, o, "__getitem__", None)(k)
+            try:
+                return o[k]
+            except NATIVE_FAULTS as e:
+                raise ModelFault(type(e).__name__, str(e))
+        vals = [one(k) for k in keys]
+        return vals[0] if len(vals) == 1 else tuple(vals)
+    return get
+
+
+def _stdlib_models():
+    import collections
+    import functools
+    import itertools
+    import operator as op
+    return {
+        "functools": namespace(
+            "functools", partial=functools.partial,
+            reduce=functools.reduce, wraps=_identity_decorator,
+            lru_cache=_identity_decorator, cache=_identity_decorator,
+            cached_property=_identity_decorator),
+        "itertools": namespace(
+            "itertools", product=itertools.product, chain=itertools.chain,
+            permutations=itertools.permutations,
+            combinations=itertools.combinations,
+            combinations_with_replacement=(
+                itertools.combinations_with_replacement),
+            zip_longest=itertools.zip_longest, islice=itertools.islice,
+            accumulate=itertools.accumulate, repeat=(
+                lambda v, times=None: itertools.repeat(v, times)
+                if times is not None else _limited_cycle([v])),
+            starmap=itertools.starmap, takewhile=itertools.takewhile,
+            dropwhile=itertools.dropwhile, groupby=itertools.groupby,
+            tee=itertools.tee, compress=itertools.compress,
+            filterfalse=itertools.filterfalse, pairwise=getattr(
+                itertools, "pairwise", None),
+            count=_limited_count, cycle=_limited_cycle),
+        "operator": namespace(
+            "operator", itemgetter=_itemgetter, attrgetter=_attrgetter,
+            add=op.add, sub=op.sub, mul=op.mul, truediv=op.truediv,
+            neg=op.neg, eq=op.eq, ne=op.ne, lt=op.lt, le=op.le, gt=op.gt,
+            ge=op.ge, and_=op.and_, or_=op.or_, not_=op.not_,
+            contains=op.contains, getitem=op.getitem),
+        "collections": namespace(
+            "collections", namedtuple=collections.namedtuple,
+            OrderedDict=collections.OrderedDict,
+            defaultdict=collections.defaultdict, deque=collections.deque,
+            Counter=collections.Counter, ChainMap=collections.ChainMap),
+    }
 
 
 def _is_generator(fn):
@@ -1939,3 +2059,6 @@ def run(fn, *args, **kwargs):
     except RecursionError:
         raise AnalysisError("python recursion limit while evaluating the "
                             "model (possible non-termination)")
+
+
+STDLIB_MODELS = _stdlib_models()
